@@ -176,6 +176,55 @@ CLAIMED["C06"] = dict(
               "correspondence + two-endpoint oracle",
 )
 
+CLAIMED["C10"] = dict(
+    text="Coq theorems over Model/Jitter.v for all arrival histories of 16-bit sequence numbers, every capacity 2^k, "
+         "every prefetch, audio and video: add() never raises; ring invariant (bounded, no stale or foreign packet); "
+         "every released frame is the concatenation of a run of received packets with consecutive sequence numbers "
+         "and the frame's timestamp; video PLI whenever a held packet is dropped unreleased; no arrival is used in "
+         "two frames (unconditional multiset accounting); without MAX_MISORDER resets frames occupy disjoint "
+         "increasing unwrapped positions; in-order complete streams that fit are released exactly except the last "
+         "max(prefetch,1) frames; the literal completeness claim for REORDERED delivery is refuted in Coq and on the "
+         "code (known finding C10-K1); outputs are invariant under any shift of sequence numbers mod 2^16 and "
+         "timestamps mod 2^32 (10 theorems, all closed).",
+    design_ref="5 / C10",
+    note="Theorems are about the model; tie = differential run comparing every add() return value and the complete "
+         "ring after every call; MAX_MISORDER and uint16_add are regenerated from the source each run.",
+    technique="Coq proof (refinement of the ring to a window abstraction, induction over arrival lists, simulation "
+              "for the shifts) + model/implementation correspondence + implementation oracle",
+)
+CLAIMED["C08"] = dict(
+    text="Every well-formed SCTP chunk of all 15 types, with all field values and all length residues, parses back "
+         "to itself and re-serialises byte-identically (also bundles, parameter lists, RE-CONFIG parameters); "
+         "everything parse_packet accepts is well-formed and re-parses identically; a valid packet corrupted within "
+         "a window of at most 32 bits (CRC bit order) lying entirely outside or entirely inside the checksum field "
+         "is rejected (GF(2)-linearity + backward reconstruction of the LFSR); parse_packet, decode_params and the "
+         "RE-CONFIG parsers return Ok or ValueError on every byte string within fuel length+1 (19 theorems). The "
+         "unrestricted burst claim is false for any RFC 4960 implementation: witness proved in Coq and replayed on "
+         "the code (known finding K6).",
+    design_ref="5 / C08",
+    note="Models tied to aiortc by a differential run (~6000 cases quick, 150000 thorough) incl. structure-aware "
+         "malformed packets with recomputed checksums; google_crc32c and struct are trusted (CRC model cross-checked "
+         "bit for bit).",
+    technique="Coq proof (induction, GF(2) linearity, LFSR inversion) + extracted-model correspondence + "
+              "implementation oracle",
+)
+CLAIMED["C03"] = dict(
+    text="Proved in Coq for Model/Nego.v: for all codec/extension lists the negotiation helpers select only offered "
+         "codecs (offerer's payload types, feedback subset, RTX only after its base with equal clock), offered "
+         "header extensions with offerer ids, lawful directions; for every session of configuration calls and "
+         "offer/answer exchanges (either side offering, all bundle policies) an exchange leaves both sides stable "
+         "with the answer mirroring the offer's m-sections/mids/BUNDLE, a definite DTLS role per section and "
+         "complementary current directions, and the next exchange always returns Ok when the real CODECS / "
+         "HEADER_EXTENSIONS tables pass tables_ok (checked each run) and codec preferences are compatible "
+         "(14 theorems). PARTIAL: 'actually connects / channels carry messages' and ICE/DTLS role complementarity "
+         "are observed on real loop-back pairs only; known finding K7.",
+    design_ref="5 / C03",
+    note="Model tied to /repo by differential runs of the real helper functions, the real capability tables and "
+         "sessions on pairs of real RTCPeerConnection objects (SDP parsed by aiortc, compared call by call).",
+    technique="Coq proof (induction, invariants) over an executable model + extracted-OCaml correspondence + "
+              "implementation oracle on real peer connections",
+)
+
 NOT_YET = "check not built yet in this development snapshot (planned, see DESIGN.md section 10)"
 
 
